@@ -74,6 +74,7 @@ var c12Scripts = []string{
 	`return redis.call('LLEN', KEYS[1])`,
 	`if redis.call('GET', KEYS[1]) == ARGV[1] then return redis.call('DEL', KEYS[1]) else return 0 end`,
 	`return nosuchfunction(`,
+	`return {#ARGV, ARGV[1], ARGV[2]}`,
 }
 
 // c12NeverLoaded is only ever used through EvalSha (NOSCRIPT on both sides).
@@ -522,7 +523,7 @@ func c12Table() []*c12Entry {
 	} {
 		d := d
 		add(&c12Entry{name: d.n, kv: d.n, weight: 7, doc: d.n + "(key,values...) -> int (new length)",
-			gen: func(g *c12Gen) []any { return c12R(g.key("list"), g.anys(1, 3)) },
+			gen: func(g *c12Gen) []any { return c12R(g.key("list"), g.shaped(1, 3)) },
 			ref: func(x *c12X, a []any) ([]any, error) {
 				v, err := d.f(x, c12s(a, 0), c12as(a, 1)).Result()
 				return c12R(int(v)), err
@@ -632,13 +633,13 @@ func c12Table() []*c12Entry {
 
 	// ------------------------------------------------------------------ sets
 	add(&c12Entry{name: "SAdd", kv: "SAdd", weight: 7, doc: "SAdd(key,members...) -> int (added)",
-		gen: func(g *c12Gen) []any { return c12R(g.key("set"), g.anys(1, 4)) },
+		gen: func(g *c12Gen) []any { return c12R(g.key("set"), g.shaped(1, 4)) },
 		ref: func(x *c12X, a []any) ([]any, error) {
 			v, err := x.cli.SAdd(x.ctx, c12s(a, 0), c12as(a, 1)...).Result()
 			return c12R(int(v)), err
 		}})
 	add(&c12Entry{name: "SRem", kv: "SRem", doc: "SRem(key,members...) -> int (removed)",
-		gen: func(g *c12Gen) []any { return c12R(g.key("set"), g.anys(1, 3)) },
+		gen: func(g *c12Gen) []any { return c12R(g.key("set"), g.shaped(1, 3)) },
 		ref: func(x *c12X, a []any) ([]any, error) {
 			v, err := x.cli.SRem(x.ctx, c12s(a, 0), c12as(a, 1)...).Result()
 			return c12R(int(v)), err
@@ -845,7 +846,7 @@ func c12Table() []*c12Entry {
 			return c12R(v), err
 		}})
 	add(&c12Entry{name: "ZRem", kv: "ZRem", doc: "ZRem(key,members...) -> int",
-		gen: func(g *c12Gen) []any { return c12R(g.key("zset"), g.anys(1, 3)) },
+		gen: func(g *c12Gen) []any { return c12R(g.key("zset"), g.shaped(1, 3)) },
 		ref: func(x *c12X, a []any) ([]any, error) {
 			v, err := x.cli.ZRem(x.ctx, c12s(a, 0), c12as(a, 1)...).Result()
 			return c12R(int(v)), err
@@ -946,7 +947,7 @@ func c12Table() []*c12Entry {
 
 	// ------------------------------------------------------------------ hyperloglog
 	add(&c12Entry{name: "PFAdd", kv: "PFAdd", weight: 4, doc: "PFAdd(key,values...) -> bool (HLL altered)",
-		gen: func(g *c12Gen) []any { return c12R(g.key("hll"), g.anys(1, 3)) },
+		gen: func(g *c12Gen) []any { return c12R(g.key("hll"), g.shaped(1, 3)) },
 		ref: func(x *c12X, a []any) ([]any, error) {
 			v, err := x.cli.PFAdd(x.ctx, c12s(a, 0), c12as(a, 1)...).Result()
 			return c12R(v == 1), err
@@ -965,7 +966,7 @@ func c12Table() []*c12Entry {
 
 	// ------------------------------------------------------------------ scripts
 	evalArgs := func(g *c12Gen) (string, []any) {
-		return c12Scripts[g.r.Intn(len(c12Scripts))], [][]any{{g.val()}, {int(g.small())}, {g.val(), "x"}}[g.r.Intn(3)]
+		return c12Scripts[g.r.Intn(len(c12Scripts))], [][]any{{g.val()}, {int(g.small())}, {g.val(), "x"}, g.shaped(0, 3), g.shaped(0, 3)}[g.r.Intn(5)]
 	}
 	add(&c12Entry{name: "Eval", weight: 3, doc: "Eval(script,keys,args...) -> interface{} | redis.Nil",
 		gen: func(g *c12Gen) []any {
